@@ -106,13 +106,14 @@ Qed.
 
 Section Bound.
 Variable mx : Z.
+Variable kp : Z.
 
 Lemma claimed_ok tnt x d h t :
-  J mx tnt x d h t ->
+  J mx kp tnt x d h t ->
   let ids := map Z.to_nat (all_items (pw_tq x)) ++ held_ids (pw_workers x) in
   NoDup ids /\ (forall i, In i ids -> (i < length (pw_tbody x))%nat).
 Proof.
-  intros HJ. pose proof (j_t _ _ _ _ _ _ _ HJ) as HT. cbv zeta.
+  intros HJ. pose proof (j_t _ _ _ _ _ _ _ _ HJ) as HT. cbv zeta.
   assert (forall z, In z (all_items (pw_tq x)) -> exists i, z = Z.of_nat i /\ (i < length (pw_tbody x))%nat) as Hq.
   { intros z Hz. destruct (jt_q _ _ _ _ _ _ _ _ HT z Hz) as (i & -> & Hi & _). eauto. }
   split.
@@ -142,25 +143,42 @@ Proof.
 Qed.
 
 Lemma work_bound tnt x d h t :
-  J mx tnt x d h t -> (qsum (pw_tbody x) (all_items (pw_tq x)) + wsum (pw_workers x) <= btotal (pw_tbody x))%nat.
+  J mx kp tnt x d h t -> (qsum (pw_tbody x) (all_items (pw_tq x)) + wsum (pw_workers x) <= btotal (pw_tbody x))%nat.
 Proof.
   intro HJ. destruct (claimed_ok tnt x d h t HJ) as [Hnd Hb]. cbv zeta in Hnd, Hb.
   pose proof (isum_blen_le (pw_tbody x) _ Hnd Hb) as H. rewrite isum_app, <- qsum_isum in H.
   assert (wsum (pw_workers x) <= isum (fun i => blen (pw_tbody x) i + 2) (held_ids (pw_workers x)))%nat as Hw.
   { apply wsum_le_held. intros k i rest Hk Ht. apply In_nth_error in Hk as [w Hw].
-    apply (jt_suf _ _ _ _ _ _ _ _ (j_t _ _ _ _ _ _ _ HJ) _ _ _ _ Hw Ht). }
+    apply (jt_suf _ _ _ _ _ _ _ _ (j_t _ _ _ _ _ _ _ _ HJ) _ _ _ _ Hw Ht). }
   lia.
 Qed.
 
 Lemma mu_bound tnt x d h t w k :
-  J mx tnt x d h t -> get_worker x w = Some k -> live k = true -> (mu x k <= wfuel x)%nat.
+  J mx kp tnt x d h t -> get_worker x w = Some k -> live k = true -> (mu x k <= wfuel x)%nat.
 Proof.
   intros HJ Hk Hl. pose proof (work_bound tnt x d h t HJ) as H. pose proof (wsum_member _ _ _ Hk) as Hm.
   rewrite (wwork_live k Hl) in Hm. unfold mu, wfuel. fold (btotal (pw_tbody x)). lia.
 Qed.
 
+Lemma keep_rounds_kcap tnt x d h t : J mx kp tnt x d h t -> Z.of_nat (keep_rounds x) = kcap kp.
+Proof.
+  intro HJ. pose proof (j_p _ _ _ _ _ _ _ _ HJ) as HP. unfold keep_rounds, kcap. rewrite (jp_cur _ _ _ _ HP).
+  destruct (jp_keep _ _ _ _ HP) as (-> & _ & _ & _). cbv zeta. destruct (kp <=? 0) eqn:E; [reflexivity|].
+  pose proof (Z.div_pos kp 1000000 ltac:(lia) ltac:(lia)). lia.
+Qed.
+
+Lemma mu2_bound tnt x d h t w k :
+  J mx kp tnt x d h t -> get_worker x w = Some k -> live k = true -> (mu2 kp x k <= wfuel x)%nat.
+Proof.
+  intros HJ Hk Hl. pose proof (work_bound tnt x d h t HJ) as H. pose proof (wsum_member _ _ _ Hk) as Hm.
+  rewrite (wwork_live k Hl) in Hm. pose proof (keep_rounds_kcap tnt x d h t HJ) as Ek.
+  destruct (jp_keep _ _ _ _ (j_p _ _ _ _ _ _ _ _ HJ)) as (_ & _ & Hcr & _).
+  pose proof (rem_bound kp (pw_clock x) k (Hcr w k Hk)) as Hr. pose proof (rem_nonneg kp (pw_clock x) k).
+  unfold mu2, mu, wfuel. fold (btotal (pw_tbody x)). lia.
+Qed.
+
 Lemma rho_bound tnt x d h t :
-  J mx tnt x d h t -> rho x <= 3 * Z.of_nat (btotal (pw_tbody x)) + Z.of_nat (length (pw_workers x)).
+  J mx kp tnt x d h t -> rho x <= 3 * Z.of_nat (btotal (pw_tbody x)) + Z.of_nat (length (pw_workers x)).
 Proof.
   intro HJ. pose proof (work_bound tnt x d h t HJ) as H. unfold rho, nlive.
   pose proof (filter_len_le live (pw_workers x)). lia.
